@@ -264,7 +264,7 @@ def kron (sa sb : Shape) : Option (Arr Term) := do
   reshape d dst
 
 /-- `index::shape_diagonal`: the other axes in order, then
-    `min(offset < 0 ? n1 + offset : n1, offset > 0 ? n2 - offset : n2)` (in `nm_index_t`; a negative length is `none` here) -/
+    `min(offset < 0 ? n1 + offset : n1, offset > 0 ? n2 - offset : n2)` (in `nm_index_t`), clamped at 0 -/
 def shapeDiagonal (s : Shape) (offset : Int) (ax1 ax2 : Nat) : Option Shape :=
   match s[ax1]?, s[ax2]? with
   | some n1, some n2 =>
@@ -272,7 +272,8 @@ def shapeDiagonal (s : Shape) (offset : Int) (ax1 ax2 : Nat) : Option Shape :=
     let s1 : Int := if offset < 0 then (n1 : Int) + offset else n1
     let s2 : Int := if offset > 0 then (n2 : Int) - offset else n2
     let m := if s1 < s2 then s1 else s2
-    if 0 ≤ m then some (rest ++ [m.toNat]) else none
+    -- `src_i = (src_i < 0 ? 0 : src_i)`: an offset beyond the extent selects an empty diagonal
+    some (rest ++ [(if m < 0 then 0 else m).toNat])
   | _, _ => none
 
 /-- the loop of `index::diagonal`: walking the source axes `0..dim-1`, every axis other than the two diagonal ones takes
@@ -288,12 +289,13 @@ def diagonalFill (ax1 ax2 : Nat) (v1 v2 : Int) : List Nat → Idx → List Int
       | x :: xs => (x : Int) :: diagonalFill ax1 ax2 v1 v2 is xs
       | [] => 0 :: diagonalFill ax1 ax2 v1 v2 is []
 
-/-- `index::diagonal(src_shape, indices, offset, axis1, axis2)`: `result[axis1] = indices[-1]`,
-    `result[axis2] = indices[-1] + offset` (sic — also for a negative offset; the sum is computed in the unsigned index
-    type, i.e. a "negative" coordinate is a wrapped one) -/
+/-- `index::diagonal(src_shape, indices, offset, axis1, axis2)`:
+    `result[axis1] = indices[-1] + (offset < 0 ? -offset : 0)`, `result[axis2] = indices[-1] + (offset > 0 ? offset : 0)` -/
 def diagonalIdx (srcDim : Nat) (d : Idx) (offset : Int) (ax1 ax2 : Nat) : List Int :=
   match d.getLast? with
-  | some last => diagonalFill ax1 ax2 (last : Int) ((last : Int) + offset) (List.range srcDim) d
+  | some last =>
+    diagonalFill ax1 ax2 ((last : Int) + (if offset < 0 then -offset else 0)) ((last : Int) + (if offset > 0 then offset else 0))
+      (List.range srcDim) d
   | none => []
 
 /-- element read of a leaf `ndarray_t` at a (possibly wrapped) index: `data_.at(Σ strides·idx mod 2^64)`;
